@@ -6,6 +6,7 @@ every kind of trash directory, home on the root volume or on its own."""
 import datetime
 import os
 import re
+import urllib.parse
 
 from .. import readcheck
 from ..core import Check, audit
@@ -16,16 +17,21 @@ from ..sandbox import MODEL_ROOT as R, run_world
 
 LEVEL_NOTE = ("theorems: list, restore, rm and empty factor through the same two parsers (first Path line, first "
               "DeletionDate line, unknown lines ignored) and are handed the same base directory for every kind of trash "
-              "directory ($topdir for volume dirs, '/' for the home trash, the same lexical volume for --trash-dir)")
-RULE = ("exhaustive product: 44 .trashinfo content templates (absolute / relative Path, percent-escapes of every byte class, "
+              "directory ($topdir for volume dirs, '/' for the home trash, the same lexical volume for --trash-dir); C20Cmd.commands_agree_on_entry: for one entry of a scanned directory the line of trash-list, the line and destination of trash-restore, the subject of trash-rm and the date of trash-empty DAYS are functions of the same text and base")
+RULE = ("exhaustive product: 49 .trashinfo content templates (4 of them with a look-alike twin entry: NFC/NFD, ligature, letter case) (absolute / relative Path, percent-escapes of every byte class, "
         "lower-case hex, malformed escapes, raw UTF-8 and non-UTF-8 bytes, duplicate keys, extra keys and sections, missing "
-        "header, CRLF, lone CR, trailing blanks, 9 date spellings) x 5 trash-dir kinds (home on / , home on its own volume, "
+        "header, CRLF, lone CR, trailing blanks, 9 date spellings) x 7 trash-dir kinds (home on / , home on its own volume, "
         ".Trash/uid, .Trash-uid, --trash-dir) ; per case five runs (list, restore listing, restore, rm by exact path, empty at "
         "the date boundary) and their mutual consistency")
 
 PATHS = [b"{ABS}/plain", b"{REL}/plain", b"plain", b"{ABS}/with%20space", b"{ABS}/caf%C3%A9", b"{ABS}/caf%c3%a9", b"{ABS}/lat%E9",
          b"{ABS}/raw-caf\xc3\xa9", b"{ABS}/raw-\xff", b"{ABS}/pct%25", b"{ABS}/bad%zz", b"{ABS}/bad%4", b"{ABS}/tail%", b"{ABS}/a+b",
-         b"{ABS}/a%2Fb", b"{ABS}/trail ", b"{ABS}/new%0Aline", b"{ABS}/eq=x", b"{ABS}/[b]*?", b"{REL}/deep/er/x", b"{ABS}//double", b"{ABS}/."]
+         b"{ABS}/a%2Fb", b"{ABS}/trail ", b"{ABS}/new%0Aline", b"{ABS}/eq=x", b"{ABS}/[b]*?", b"{REL}/deep/er/x", b"{ABS}//double", b"{ABS}/.",
+         b"{ABS}/cafe%CC%81.txt", b"{ABS}/caf%C3%A9.txt", b"{ABS}/\xef\xac\x81le", b"{ABS}/CaseName"]
+# a neighbour whose path is a different one although it looks the same (other Unicode normalisation form, compatibility
+# ligature, letter case): naming one entry by the path trash-list shows must not touch the other
+TWINS = {b"{ABS}/cafe%CC%81.txt": b"{ABS}/caf%C3%A9.txt", b"{ABS}/caf%C3%A9.txt": b"{ABS}/cafe%CC%81.txt",
+         b"{ABS}/\xef\xac\x81le": b"{ABS}/file", b"{ABS}/CaseName": b"{ABS}/casename"}
 DATES = [b"2024-03-01T12:00:00", b"2024-3-1T9:5:7", b"2024-03-01t12:00:00", b"2024-02-30T00:00:00", b"garbage", b"2024-03-01T12:00:00 ",
          b"0001-01-01T00:00:00", b"9999-12-31T23:59:59", None]
 SHAPES = ["std", "crlf", "lone-cr", "no-header", "dup-keys", "extra", "date-first", "no-final-newline"]
@@ -93,6 +99,10 @@ def one(task):
     w.dir(t + b"/info", 0o700)
     w.file(t + b"/info/e.trashinfo", render(shape, path, date), 0o600)
     w.file(t + b"/files/e", b"payload")
+    twin = TWINS.get(ptempl)
+    if twin:
+        w.file(t + b"/info/twin.trashinfo", render("std", twin.replace(b"{ABS}", vol + b"/w"), b"2024-03-01T12:00:00"), 0o600)
+        w.file(t + b"/files/twin", b"twin payload")
     w.dir(vol + b"/w")
     meta = {"entries": [], "tdirs": [(t, None)], "profile": "c20", "payload_kinds": ["file"]}
     custom = {"userDirs": [t]} if kind == "custom" or cli else {}
@@ -107,7 +117,12 @@ def one(task):
     problems, mism = [], []
     rl = run("list", custom)
     mism += [("list", m) for m in rl["mismatch"]]
-    m = re.match(rb"^(\d{4}-\d\d-\d\d \d\d:\d\d:\d\d|\?\?\?\?-\?\?-\?\? \?\?:\?\?:\?\?) (.*)\n$", rl["stdout"], re.S)
+    out_l = rl["stdout"]
+    if twin:
+        # the twin's line is the other one
+        tl = [l for l in out_l.split(b"\n") if l and not l.endswith(b"/" + os.path.basename(urllib.parse.unquote_to_bytes(twin)))]
+        out_l = b"".join(l + b"\n" for l in tl)
+    m = re.match(rb"^(\d{4}-\d\d-\d\d \d\d:\d\d:\d\d|\?\?\?\?-\?\?-\?\? \?\?:\?\?:\?\?) (.*)\n$", out_l, re.S)
     tags = ["kind:" + kind, "shape:" + shape]
     if not m:
         tags.append("list:not-listed")
@@ -119,6 +134,10 @@ def one(task):
     rr = run("restore", ropts, stdin=b"\n")
     mism += [("restore-listing", m_) for m_ in rr["mismatch"]]
     text = re.sub(rb"What file to restore \[0\.\.\d+\]: ", b"", rr["stdout"])
+    if twin:
+        # two entries are offered; keep the line of ours, renumbered
+        keep = [l for l in text.split(b"\n") if re.match(rb"^ *\d+ ", l) and l.endswith(b" " + lpath)]
+        text = b"".join(re.sub(rb"^ *\d+ ", b"   0 ", l) + b"\n" for l in keep) + b"No files were restored\n"
     m2 = re.match(rb"^ *0 (\d{4}-\d\d-\d\d \d\d:\d\d:\d\d|None) (.*)\nNo files were restored\n$", text, re.S)
     if not m2:
         problems.append("listed by trash-list but not offered by trash-restore: %r" % text[:200])
@@ -129,7 +148,7 @@ def one(task):
         if (rdate == b"None") != ldate.startswith(b"?") or (rdate != b"None" and rdate != ldate):
             problems.append("date differs: list %r restore %r" % (ldate, rdate))
         # restore really goes to that path
-        if b"\x00" not in lpath and lpath.startswith(R + b"/") and not lpath.endswith(b"/."):
+        if b"\x00" not in lpath and lpath.startswith(R + b"/") and not lpath.endswith(b"/.") and not twin:
             r2 = run("restore", ropts, stdin=b"0\n")
             mism += [("restore", m_) for m_ in r2["mismatch"]]
             dest = os.path.normpath(lpath)
@@ -143,6 +162,8 @@ def one(task):
             mism += [("rm", m_) for m_ in r3["mismatch"]]
             if (t + b"/info/e.trashinfo") in r3["after_state"] and b"\n" not in lpath:
                 problems.append("trash-rm does not match the path trash-list shows: %r" % lpath)
+            if twin and (t + b"/info/twin.trashinfo") not in r3["after_state"]:
+                problems.append("trash-rm given the path of one entry removed another entry whose path differs: %r" % lpath)
     # trash-empty at the boundary of the date shown by list
     if not ldate.startswith(b"?"):
         d = datetime.datetime.strptime(ldate.decode(), "%Y-%m-%d %H:%M:%S")
